@@ -664,6 +664,19 @@ func c06CLIUnit(t *testing.T, r *runner) {
 	}
 	names := append(append([]string{}, eco.Names...), "vers", "nope", "", "NPM", "xyzzy", "-x")
 	cmds := []string{"compare", "sort", "contains", "nope", "", "Compare", "--", "-v"}
+	// 100k-character arguments (the operating system allows up to 128 kB per argument)
+	for _, name := range append(append([]string{}, eco.Names...), "vers") {
+		for _, long := range []string{strings.Repeat("9", 100000), "1" + strings.Repeat(".1", 50000), "1" + strings.Repeat("-a", 50000), strings.Repeat(">=", 50000) + "1"} {
+			for _, args := range [][]string{{name, "compare", long, "1.0.0"}, {name, "contains", ">=" + long[:60000], "1.0.0"}, {name, "sort", "1.0.0", long}, {name, "contains", "vers:npm/>=" + long[:60000], "1.0.0"}} {
+				step("CLI " + name + " " + args[1] + " with a " + strconv.Itoa(len(long)) + "-character argument")
+				r.ev.Eval()
+				if bad := c06CLI(args); bad != "" {
+					failPlain(t, r, known.Case{Property: "C06", Check: "cli", Eco: "cli", Inputs: args, Detail: bad})
+				}
+				r.ev.NonTrivial("cli/long-argument", func() any { return []string{name, args[1], "100k-character argument"} }, "cli-long", name, args[1], strconv.Itoa(len(args[2])), strconv.Itoa(len(args[len(args)-1])), long[:4])
+			}
+		}
+	}
 	rapid.Check(t, func(rt *rapid.T) {
 		n := rapid.IntRange(0, 5).Draw(rt, "argc")
 		var args []string
